@@ -55,6 +55,17 @@ func VerifHarness_C17_Ranking() {
 	}
 	x := &cand{key: verifKn(9999), owner: verifAn(9999), stake: verifBigPos("stakeX"), on: true}
 	verifAssume(x.stake.Cmp(verifE18(100000)) <= 0)
+	dust := verifConfig("dust") == 1
+	dustOwner, dustValue := verifAn(7777), big.NewInt(1000000)
+	if dust {
+		// X also holds a stake in a custom coin whose value in base coin (bancor
+		// formula, uninterpreted) may round down to zero; X's base stake and the
+		// coin's reserve are small enough to keep X the lowest-ranked candidate
+		verifAssume(x.stake.Cmp(verifE18(100)) <= 0)
+		owner := verifAn(1)
+		st.Coins.Create(1, types.StrToCoinSymbol("DUST"), "dust", verifE18(10000000), 50, verifE18(100), verifE18(100000000), &owner)
+		st.App.SetCoinsCount(1)
+	}
 	cs = append(cs, x)
 	for _, c := range cs {
 		st.Candidates.Create(c.owner, c.owner, c.owner, c.key, 10, 1, 0)
@@ -63,6 +74,9 @@ func VerifHarness_C17_Ranking() {
 		}
 		st.Candidates.Delegate(c.owner, c.key, 0, c.stake, c.stake)
 		c.id = st.Candidates.ID(c.key)
+	}
+	if dust {
+		st.Candidates.Delegate(dustOwner, x.key, 1, dustValue, big.NewInt(0))
 	}
 	// candidate 2 is in the current validator set
 	for _, c := range cs {
@@ -104,6 +118,17 @@ func VerifHarness_C17_Ranking() {
 					}
 				}
 				verifAssert("C17:removed-candidate-stake-unbonded-in-full", found)
+				if dust && c == x {
+					foundDust := false
+					if ff != nil {
+						for _, it := range ff.List {
+							if it.Address == dustOwner && it.Coin == 1 && it.Value.Cmp(dustValue) == 0 {
+								foundDust = true
+							}
+						}
+					}
+					verifAssert("C17:removed-candidate-custom-coin-stake-unbonded-in-full", foundDust)
+				}
 			}
 		}
 	}
